@@ -109,3 +109,64 @@ def run(ctx):
             for m in op.macros:
                 if m["macro"] in ("panic", "todo", "unimplemented", "unreachable") and any("is_pull" in cnd for cnd in m["conds"]) and not any("len" in cnd for cnd in m["conds"]):
                     ctx.violation(R_B, key + "|placement-dependent-panic", "`%s` panics on one placement only" % op.name, "%s:%s" % (op.file, m["line"]))
+    drainall_rule(ctx)
+
+
+DRAIN_RE = r"Pull :: for_each \(|pull :: accumulate\w* \("
+
+
+def _enclosing(t, pos):
+    stack = []
+    last_kw = None
+    for tok in t[:pos].split(" "):
+        if tok in ("if", "while", "for", "match", "else", "loop"):
+            last_kw = tok
+        if tok == "{":
+            stack.append(last_kw)
+            last_kw = None
+        elif tok == "}":
+            if stack:
+                stack.pop()
+        elif tok == ";":
+            last_kw = None
+    return [s_ for s_ in stack if s_]
+
+
+def drainall_rule(ctx):
+    """an operator that drains one of its pull inputs eagerly does so unconditionally: a drain nested under `if`/`match`/`while` inside the emitted code leaves the
+    input un-pulled on some ticks, and what a lazily pulled stateful operator upstream then sees depends on whether it shares the subgraph (pull) or sits
+    behind a handoff (push, always driven). Sub-templates bound with `let` and interpolated (`#name`) are followed."""
+    import re
+    import synfacts
+    R = ctx.rule("C22.drainall", "eager drains of operator inputs (Pull::for_each / accumulate helpers, directly or through an interpolated sub-template) are not nested under a run-time conditional in the emitted code", floor=15)
+    d = synfacts.scan_dir("dfir_lang/src/graph/ops")
+    for f, v in sorted(d.items()):
+        # template variables of each generator fn that carry a drain (fixpoint over `let name = quote!{..}` / match-of-quotes)
+        carriers = {}
+        lets = [l for l in v["lets"] if "quote" in l["init"]]
+        changed = True
+        while changed:
+            changed = False
+            for l in lets:
+                key = (l["fn"], l["pat"].replace("mut ", "").strip())
+                if key in carriers:
+                    continue
+                t = l["init"]
+                if re.search(DRAIN_RE, t) or any(re.search(r"# %s\b" % re.escape(n), t) for (fn, n) in carriers if fn == l["fn"]):
+                    carriers[key] = l["line"]
+                    changed = True
+        idx = 0
+        for m in v["macros"]:
+            if m["macro"] not in ("quote", "quote_spanned"):
+                continue
+            t = m["text"]
+            names = [n for (fn, n) in carriers if fn == m["fn"]]
+            pat = DRAIN_RE + "".join(r"|# %s\b" % re.escape(n) for n in names)
+            for mm in re.finditer(pat, t):
+                idx += 1
+                cond = _enclosing(t, mm.start())
+                k = "dfir_lang|%s|drain#%d" % (f.split("/")[-1], idx)
+                ctx.inst(R, k, sample={"line": m["line"], "what": mm.group(0), "enclosing": cond})
+                if cond:
+                    ctx.violation(R, k + "|conditional-drain", "an input drain (%s) is nested under `%s` inside the operator's emitted code: on ticks where the condition fails the input is not "
+                                  "pulled, so results depend on pull/push placement of the upstream operator" % (mm.group(0).strip(" ("), cond[-1]), "%s:%s" % (f, m["line"]))
